@@ -283,57 +283,48 @@ func ResolveStateConflictsV2New(
 
 	r.allower = newAllowerContext(r.authProvider, userIDForSender, *roomID)
 
-	unconflictedSet := newPDUSet(unconflicted)
-
-	// Get the full conflicted set, that is the conflicted events and the
-	// auth difference (events that don't appear in all auth chains).
 	fullConflictedSet := append(conflicted, r.calculateAuthDifferenceNew(stateResAlgo, newPDUSet(conflicted), stateSets)...)
+	fullConflictedMap := eventMapFromEvents(fullConflictedSet)
 
-	// The full power set function returns the event and all of its auth
-	// events that also happen to appear in the conflicted set. This will
-	// effectively allow us to pull in all related events for any control
-	// event, even if those related events are themselves not control events.
-	visited := make(map[string]struct{}, len(conflicted)+len(authEvents))
-	var fullControlSet func(event PDU) []PDU
-	fullControlSet = func(event PDU) []PDU {
-		events := []PDU{event}
+	// The power events of the full conflicted set, plus the events of their
+	// auth chains that also belong to the full conflicted set. The chain is
+	// followed through every supplied auth event, whether or not it belongs to
+	// the full conflicted set itself.
+	conflictedPulledIn := make(map[string]struct{}, len(fullConflictedMap))
+	visited := make(map[string]struct{}, len(fullConflictedMap)+len(authEvents))
+	var pullInAuthChain func(event PDU)
+	pullInAuthChain = func(event PDU) {
 		for _, authEventID := range event.AuthEventIDs() {
 			if _, ok := visited[authEventID]; ok {
 				continue
 			}
-			if event, ok := r.conflictedEventMap[authEventID]; ok {
-				events = append(events, fullControlSet(event)...)
-			}
 			visited[authEventID] = struct{}{}
-		}
-		return events
-	}
-
-	// First of all, work through the full conflicted set. Ignoring any
-	// events which are unconflicted (from the auth difference, for example),
-	// pull in the control events and any events directly related to them.
-	conflictedPulledIn := make(map[string]struct{}, len(conflicted)+len(authEvents))
-	for _, p := range fullConflictedSet {
-		if unconflictedSet.Contains(p) {
-			continue
-		}
-		if isControlEvent(p) {
-			relatedEvents := fullControlSet(p)
-			for _, event := range relatedEvents {
-				conflictedPulledIn[event.EventID()] = struct{}{}
+			authEvent, ok := fullConflictedMap[authEventID]
+			if ok {
+				if _, done := conflictedPulledIn[authEventID]; !done {
+					conflictedPulledIn[authEventID] = struct{}{}
+					conflictedControlEvents = append(conflictedControlEvents, authEvent)
+				}
+			} else if authEvent, ok = r.authEventMap[authEventID]; !ok {
+				continue
 			}
-			conflictedControlEvents = append(conflictedControlEvents, relatedEvents...)
+			pullInAuthChain(authEvent)
 		}
 	}
-
-	// Then work through the set again, this time looking for any events
-	// that were left over from the last loop — that is, events that are
-	// either not control events or weren't pulled in to the control set.
 	for _, p := range fullConflictedSet {
-		if unconflictedSet.Contains(p) || isControlEvent(p) {
+		if !isControlEvent(p) {
 			continue
 		}
+		if _, done := conflictedPulledIn[p.EventID()]; !done {
+			conflictedPulledIn[p.EventID()] = struct{}{}
+			conflictedControlEvents = append(conflictedControlEvents, p)
+		}
+		pullInAuthChain(p)
+	}
+
+	for _, p := range fullConflictedSet {
 		if _, ok := conflictedPulledIn[p.EventID()]; !ok {
+			conflictedPulledIn[p.EventID()] = struct{}{}
 			conflictedOthers = append(conflictedOthers, p)
 		}
 	}
